@@ -56,7 +56,7 @@ def transform(rng, t, kind):
                 k = 2.0 ** rng.choice([-1040, -1035, -1030, -1027, -1030, -1035, -1000, 900, 1010, 1015])
                 if rng.random() < 0.35:
                     # the largest weight just below f64::MAX: with three or more comparable outcomes the sum exceeds 2 * MAX
-                    k = 2.0 ** (1023 - math.frexp(max(b2f(w) for w, _ in n["o"]))[1])
+                    k = 2.0 ** (1024 - math.frexp(max(b2f(w) for w, _ in n["o"]))[1])      # largest weight in [2^1023, 2^1024)
                 ws = [b2f(w) * k for w, _ in n["o"]]
                 if all(w > 0.0 and math.isfinite(w) for w in ws):
                     n["o"] = [[f2b(w), c] for w, (_, c) in zip(ws, n["o"])]
